@@ -1,13 +1,26 @@
 #!/usr/bin/env python3
 """Re-confirms every seeded change under /verif/seeded (index.json) and runs the listed checks against it.
-usage: run_seeded.py [name-substring ...]"""
-import json, os, subprocess, sys
+usage: run_seeded.py [--jobs=N] [name-substring ...]"""
+import json, os, subprocess, sys, time
+from concurrent.futures import ThreadPoolExecutor
 ROOT = os.path.dirname(os.path.dirname(os.path.abspath(__file__)))
 idx = json.load(open(os.path.join(ROOT, "seeded", "index.json")))
-for name, e in sorted(idx.items()):
-    if sys.argv[1:] and not any(a in name for a in sys.argv[1:]): continue
-    r = subprocess.run([os.path.join(ROOT, "tools", "check_seed.sh"), os.path.join(ROOT, "seeded", name), e["demo"], e["pkg"], e["run"]] + e["props"],
-                       stdout=subprocess.PIPE, stderr=subprocess.STDOUT, text=True, env=dict(os.environ, SEED_RACE="1" if e.get("race") else "0"))
+args = [a for a in sys.argv[1:] if not a.startswith("--jobs=")]
+jobs = max([int(a.split("=")[1]) for a in sys.argv[1:] if a.startswith("--jobs=")] + [1])
+
+def one(item):
+    name, e = item
+    for attempt in range(3):
+        r = subprocess.run([os.path.join(ROOT, "tools", "check_seed.sh"), os.path.join(ROOT, "seeded", name), e["demo"], e["pkg"], e["run"]] + e["props"],
+                           stdout=subprocess.PIPE, stderr=subprocess.STDOUT, text=True, env=dict(os.environ, SEED_RACE="1" if e.get("race") else "0"))
+        if r.returncode != 3:  # 3 = the scratch worktree could not be created (git lock held by a parallel job)
+            break
+        time.sleep(2 + attempt)
     lines = [l for l in r.stdout.splitlines() if l.startswith(("CHECK", "demo", "repo suite", "patch", "does not"))]
-    print("== %s (rc=%d)\n   %s" % (name, r.returncode, "\n   ".join(lines)))
-    sys.stdout.flush()
+    return "== %s (rc=%d)\n   %s" % (name, r.returncode, "\n   ".join(lines))
+
+todo = [(n, e) for n, e in sorted(idx.items()) if not args or any(a in n for a in args)]
+with ThreadPoolExecutor(max_workers=jobs) as ex:
+    for out in ex.map(one, todo):
+        print(out)
+        sys.stdout.flush()
